@@ -168,6 +168,107 @@ func TestC10SelfJudge(t *testing.T) {
 	if dv := diffJudge(sh, 100000); !dv.ok {
 		t.Errorf("shared handle history: differential oracle ok=%v inconclusive=%q (%s)", dv.ok, dv.inconclusive, dv.msg)
 	}
+	// a delete is atomic for readers (c10_rdatomic_test.go): all or nothing of what ONE delete removed
+	ax, by, cz := []string{"a", "x"}, []string{"b", "y", "p"}, []string{"c", "z"}
+	rdBase := func(v HOp, extra ...HOp) *History {
+		ops := []HOp{
+			op(9, "add", ax, 1, 2, val(2)),
+			op(9, "add", by, 3, 4, val(4)),
+			op(9, "add", cz, 5, 6, val(6)),
+			v,
+			op(1, "del", []string{"*"}, 11, 14, func(o *HOp) { o.Paths = [][]string{ax, by, cz} }),
+		}
+		ops = append(ops, extra...)
+		ops = append(ops, op(3, "final", nil, 40, 41, nil))
+		return &History{Ops: ops}
+	}
+	sorted := func(kv ...KV) func(*HOp) { return func(o *HOp) { o.Sorted, o.KV = true, kv } }
+	for _, c := range []struct {
+		name, want string
+		h          *History
+	}{
+		{"visit saw everything the overlapping delete removed", "", rdBase(op(0, "walk", nil, 10, 20, sorted(KV{ax, 2}, KV{by, 4}, KV{cz, 6})))},
+		{"visit saw nothing of what the overlapping delete removed", "", rdBase(op(0, "walk", nil, 10, 20, sorted()))},
+		{"visit saw a strict subset of ONE delete", "visit-saw-part-of-one-delete", rdBase(op(0, "walk", nil, 10, 20, sorted(KV{ax, 2})))},
+		{"same for Query, restricted to what its pattern matches", "visit-saw-part-of-one-delete", rdBase(op(0, "query", []string{"*", "*"}, 10, 20, func(o *HOp) { o.KV = []KV{{cz, 6}} }))},
+		{"a query whose pattern matches one removed leaf only has nothing to compare", "", rdBase(op(0, "query", []string{"a"}, 10, 20, func(o *HOp) { o.KV = []KV{{ax, 2}} }))},
+	} {
+		for i := range c.h.Ops {
+			if isQueryKind(c.h.Ops[i].Kind) && c.h.Ops[i].KV == nil {
+				c.h.Ops[i].KV = []KV{}
+			}
+		}
+		if v := judge(c.h, 5*time.Second, 5*time.Second); v.class != c.want || v.inconclusive != "" {
+			t.Errorf("%s: judged %q %q (%s), want %q", c.name, v.class, v.inconclusive, v.msg, c.want)
+		}
+		if f, _ := judgeSmall(c.h, false); (f == nil) != (c.want == "") {
+			t.Errorf("%s: judgeSmall without the model: %v, want class %q", c.name, f, c.want)
+		}
+	}
+	// ... unless another operation that met the two touched the missing leaf: then it may have been gone before (or come back after)
+	{
+		h := rdBase(op(0, "walk", nil, 10, 20, sorted(KV{ax, 2}, KV{by, 4})),
+			op(2, "del", []string{"c"}, 8, 9, func(o *HOp) { o.Paths = [][]string{} }))
+		// (the second delete returned nothing, but it met the hull only if its interval does: [8,9] does not)
+		if cl, _, _ := readerDeleteAtomicity(h); cl == "" {
+			t.Errorf("a delete that ended before the visit and the delete began must not excuse the subset")
+		}
+		h = rdBase(op(0, "walk", nil, 10, 20, sorted(KV{ax, 2}, KV{cz, 6})),
+			op(2, "add", []string{"b", "y"}, 12, 13, func(o *HOp) { o.Val, o.Err = 8, "branch in the way" }))
+		if cl, _, st := readerDeleteAtomicity(h); cl != "" || st.pairs != 1 || st.all != 1 {
+			t.Errorf("an Add at a prefix of the missing leaf met the interval: the leaf is not compared (class %q, stats %+v)", cl, st)
+		}
+		h = rdBase(op(0, "walk", nil, 10, 20, sorted(KV{ax, 2})),
+			op(2, "add", []string{"b", "y"}, 12, 13, func(o *HOp) { o.Val, o.Err = 8, "branch in the way" }))
+		if cl, _, _ := readerDeleteAtomicity(h); cl != "visit-saw-part-of-one-delete" {
+			t.Errorf("a/x reported, c/z missed, both untouched: want the violation, got %q", cl)
+		}
+	}
+	// a visitor handed a value of a type nobody stored: refused by every judge, with and without nil values in the history
+	for _, withNil := range []bool{false, true} {
+		h := &History{Ops: []HOp{
+			op(9, "add", []string{"a", "n"}, 1, 2, func(o *HOp) { o.Nil, o.Val = withNil, map[bool]int{false: 2}[withNil] }),
+			op(0, "walk", nil, 3, 6, func(o *HOp) {
+				o.Sorted, o.KV, o.Foreign = true, []KV{{[]string{"a", "n"}, -1}}, "at path [a n]: a value of type ctree.branch"
+			}),
+			op(1, "add", []string{"a", "n", "c"}, 4, 5, func(o *HOp) { o.Val = 4; o.Err = map[bool]string{false: "leaf in the way"}[withNil] }),
+			op(3, "final", nil, 9, 10, func(o *HOp) {
+				o.KV = []KV{{[]string{"a", "n"}, 2}}
+				if withNil {
+					o.KV = []KV{{[]string{"a", "n", "c"}, 4}}
+				}
+			}),
+		}}
+		if v := judge(h, 5*time.Second, 5*time.Second); v.class != "impossible-result" {
+			t.Errorf("foreign value (nil=%v): model judge says %q %q", withNil, v.class, v.inconclusive)
+		}
+		if dv := diffJudge(h, 100000); dv.ok || dv.inconclusive != "" {
+			t.Errorf("foreign value (nil=%v): differential oracle ok=%v inconclusive=%q", withNil, dv.ok, dv.inconclusive)
+		}
+		if f, _ := judgeSmall(h, !withNil); f == nil || f.class != "impossible-result" {
+			t.Errorf("foreign value (nil=%v): judgeSmall says %v", withNil, f)
+		}
+		h.Ops[1].KV, h.Ops[1].Foreign = []KV{{[]string{"a", "n"}, h.Ops[0].Val}}, ""
+		if withNil {
+			h.Ops[1].KV = []KV{{[]string{"a", "n", "c"}, 4}}
+		}
+		if f, inc := judgeSmall(h, !withNil); f != nil || len(inc) > 0 {
+			t.Errorf("the same history with a legal walk result (nil=%v): %v %v", withNil, f, inc)
+		}
+	}
+	// WalkSorted order
+	{
+		h := rdBase(op(0, "walk", nil, 30, 31, sorted()))
+		h.Ops[3].Call, h.Ops[3].Ret = 7, 8
+		h.Ops[3].KV = []KV{{by, 4}, {ax, 2}, {cz, 6}}
+		if v := judge(h, 5*time.Second, 5*time.Second); v.class != "walksorted-out-of-order" {
+			t.Errorf("unsorted WalkSorted: judged %q", v.class)
+		}
+		h.Ops[3].KV = []KV{{ax, 2}, {by, 4}, {cz, 6}}
+		if v := judge(h, 5*time.Second, 5*time.Second); v.class != "" {
+			t.Errorf("sorted WalkSorted: judged %q (%s)", v.class, v.msg)
+		}
+	}
 	// empty nodes: a terminal add and an add through the same empty node cannot both succeed ...
 	root := []string{}
 	both := &History{Ops: []HOp{
